@@ -11,6 +11,7 @@ import stat
 from lib import framework as fw
 from props import walk_common as wc
 from props import xargs_common as xc
+from props import known_common as kc
 from props import c13
 
 RULE = ("(format string, entry, follow mode, spelling of the starting point) cases; formats of 1-8 items drawn from verbatim characters, the nine escapes, "
@@ -102,7 +103,7 @@ def values_for(root, names, mode, r_abs):
     if rec is None:
         return None
     v["s"], v["n"], v["i"], v["U"], v["G"] = str(rec.st_size), str(rec.st_nlink), str(rec.st_ino), str(rec.st_uid), str(rec.st_gid)
-    v["m"] = "%03o" % (rec.st_mode & 0o7777)
+    v["m"] = "%o" % (rec.st_mode & 0o7777)        # the number in octal: mode 0 is "0" (the reference once padded to three digits, as the code did)
     v["y"] = LETTER[stat.S_IFMT(rec.st_mode)]
     if stat.S_ISLNK(lst.st_mode):
         # %Y agrees with -xtype: where the follow mode already resolves the link (it is not a link for -type any more), -xtype
@@ -173,6 +174,7 @@ def run(ctx):
                            "explain": "C16_render / C16_width fix the output for a documented format given the directive values", "total_disagreements": len(bad)})
         path_values(ctx, forest, names, r_abs, spellings)
         known(ctx, forest)
+        unreadable_directive(ctx, forest)
     finally:
         forest.close()
 
@@ -201,6 +203,33 @@ def path_values(ctx, forest, names, r_abs, spellings):
             ctx.violation("path directives for %r: implementation %r, PrintfValue model %r" % (path, got, exp),
                           {"property": "C16", "kind": "path-model", "path": path, "depth": len(ent), "implementation": [x.decode() for x in got],
                            "model": [x.decode() for x in exp]})
+
+
+def unreadable_directive(ctx, forest):
+    """a directive whose value cannot be read (the target of a link in a directory that may be listed but not searched: unprivileged user)
+    prints as nothing; every other character of the format is still copied, the next record starts on its own line, exit status 1"""
+    import subprocess
+    base = os.path.join(forest.dir, b"ud")
+    os.makedirs(os.path.join(base, b"dir"))
+    open(os.path.join(base, b"dir", b"a"), "wb").close()
+    os.symlink(b"a", os.path.join(base, b"dir", b"l"))
+    pre = kc.unprivileged(base)
+    if pre is None:
+        ctx.notes.append("unreadable_directive: no unprivileged user available here, scenario skipped")
+        return
+    kc.chown_tree(os.path.join(base, b"dir"))
+    os.chmod(os.path.join(base, b"dir"), 0o444)
+    try:
+        p = subprocess.run(list(pre) + [fw.FIND, "dir", "-sorted", "-printf", "[%p|%l|%f]\n"], stdout=subprocess.PIPE, stderr=subprocess.PIPE, cwd=base, env=xc.ENV, timeout=60)
+    finally:
+        os.chmod(os.path.join(base, b"dir"), 0o755)
+    want = b"[dir||dir]\n[dir/a||a]\n[dir/l||l]\n"
+    ctx.count(("unreadable-directive",), True, "unreadable-directive")
+    if p.stdout != want or p.returncode != 1:
+        ctx.violation("find dir -printf '[%%p|%%l|%%f]\\n' as an unprivileged user, dir readable but not searchable: printed %r, exit %d; expected %r, exit 1"
+                      % (p.stdout, p.returncode, want),
+                      {"property": "C16", "kind": "unreadable-directive", "output": p.stdout.decode("utf-8", "replace"), "exit": p.returncode,
+                       "expected": want.decode(), "stderr": p.stderr.decode("utf-8", "replace")[:300]})
 
 
 def known(ctx, forest):
